@@ -14,10 +14,17 @@ use crate::locktrace;
 use crate::vtime::{self, Exec, Queue};
 use crate::{Case, Out};
 
-struct Probe(Rc<RefCell<Vec<Notif>>>);
+/// `.1`: field `fb` — on receiving the item `v > 0` the subscriber pushes `v - 1` into hot subject 0 from inside
+/// its callback (a feedback / count-down loop through the pipeline)
+struct Probe(Rc<RefCell<Vec<Notif>>>, Option<Subject<'static, Val, i64>>);
 impl Observer<Val, i64> for Probe {
   fn next(&mut self, v: Val) {
-    self.0.borrow_mut().push(Notif::Next(v));
+    self.0.borrow_mut().push(Notif::Next(v.clone()));
+    if let (Some(s), Val::Int(i)) = (&self.1, &v) {
+      if *i > 0 {
+        s.clone().next(Val::Int(*i - 1));
+      }
+    }
   }
   fn error(self, e: i64) {
     self.0.borrow_mut().push(Notif::Error(e));
@@ -30,11 +37,16 @@ impl Observer<Val, i64> for Probe {
   }
 }
 
-struct ProbeT(Arc<Mutex<Vec<Notif>>>);
+struct ProbeT(Arc<Mutex<Vec<Notif>>>, Option<SubjectThreads<Val, i64>>);
 impl Observer<Val, i64> for ProbeT {
   fn next(&mut self, v: Val) {
     locktrace::on_cb(0);
-    self.0.lock().unwrap().push(Notif::Next(v));
+    self.0.lock().unwrap().push(Notif::Next(v.clone()));
+    if let (Some(s), Val::Int(i)) = (&self.1, &v) {
+      if *i > 0 {
+        s.clone().next(Val::Int(*i - 1));
+      }
+    }
   }
   fn error(self, e: i64) {
     locktrace::on_cb(0);
@@ -131,7 +143,7 @@ fn run_local(case: &Case, out: &mut Out) {
     out.cur = k;
     match ev[0].atom() {
       "sub2" => {
-        sub2 = Some(pipeline.clone().actual_subscribe(Probe(log2.clone())));
+        sub2 = Some(pipeline.clone().actual_subscribe(Probe(log2.clone(), None)));
         let sfx = suffix(case, &exec);
         out.emit(k, drain(&log) + &sfx);
       }
@@ -155,7 +167,7 @@ fn run_local(case: &Case, out: &mut Out) {
               .subscribe(move |v| l3.borrow_mut().push(Notif::Next(v))),
           )
         } else {
-          pipeline.clone().actual_subscribe(Probe(log.clone()))
+          pipeline.clone().actual_subscribe(Probe(log.clone(), if case.has("fb") { Some(ctx.subject(0)) } else { None }))
         };
         sub = Some(u);
         let sfx = suffix(case, &exec);
@@ -234,7 +246,7 @@ fn run_threads(case: &Case, out: &mut Out) {
     out.cur = k;
     match ev[0].atom() {
       "sub2" => {
-        sub2 = Some(pipeline.clone().actual_subscribe(ProbeT(log2.clone())));
+        sub2 = Some(pipeline.clone().actual_subscribe(ProbeT(log2.clone(), None)));
         let sfx = suffix(case, &exec);
         out.emit(k, drain(&log) + &sfx);
       }
@@ -256,7 +268,7 @@ fn run_threads(case: &Case, out: &mut Out) {
               .subscribe(move |v| l3.lock().unwrap().push(Notif::Next(v))),
           )
         } else {
-          pipeline.clone().actual_subscribe(ProbeT(log.clone()))
+          pipeline.clone().actual_subscribe(ProbeT(log.clone(), if case.has("fb") { Some(ctx.subject(0)) } else { None }))
         };
         sub = Some(u);
         let sfx = suffix(case, &exec);
